@@ -65,10 +65,6 @@ HANDLERS = {
     "HUnmerge": ["to_change.append([i + imin, all_fun[i]])"],
 }
 
-BASES = {
-    "core_maths": None, "keep_duplicates": None, "ext_maths": None,
-}
-
 
 # ------------------------------------------------------------------ ast side
 
@@ -352,7 +348,8 @@ def block_case(tab, b, I):
             cb(post["f1_bound"]), cb(post["expr_bound"]))
         return "blk_case %s %s %s %s" % (kind, blk, fr, exp), info
     if kind == "KX":
-        return "x_case %s %s %d %s %d" % (blk, nl(pre["xi"]), pre["nxv"], nl(post["xi"]), post["nxv"]), info
+        prem = "" if b["fired"] else " && conforms KX (fst (%s : blk)) && aligned (fst (%s : blk))" % (blk, blk)    # premise of C15_expand_completes
+        return "(x_case %s %s %d %s %d%s)" % (blk, nl(pre["xi"]), pre["nxv"], nl(post["xi"]), post["nxv"], prem), info
     unm = len(post["to_change"]) == len(pre["to_change"]) + 1
     if not unm and post["to_change"] != pre["to_change"]:
         raise Mismatch("block %d (KR): to_change changed unexpectedly" % b["k"])
@@ -448,6 +445,15 @@ def run_model_inputs(tab, x, I):
         bykind = {}
         for b in ks:
             bykind.setdefault(b["kind"], []).append(b)
+        if any(t is not None for t in c["in_subs"]):
+            raise Mismatch("call %d: all_inv_subs is not all None at entry (do_sympy resets it every round)" % c["c"])
+        if x["n"] <= 2 and c["max_param"] > 1:
+            raise Mismatch("call %d: complexity %d has a function with %d parameters (C15_small_calls_no_stale assumes <= 1)"
+                           % (c["c"], x["n"], c["max_param"]))
+        if c["max_param"] <= 1:
+            eff_lines = {ln for ln, e, _ in tab["KE"]["rows"]}
+            if any(ln in eff_lines for b in bykind.get("KE", []) for ln in b["lines"]):
+                raise Mismatch("call %d: block KE has an effect although there is a single parameter name" % c["c"])
         perm = c["max_param"] > 1 and c["check_perm"]
         ncomb = c["max_param"] * (c["max_param"] - 1) // 2
         shape = dict(KA=ncomb * nf, KB=nf, KC=nf if perm else 0, KD=nf, KE=nf)
